@@ -6,10 +6,11 @@ import LhasaV.Driver.OpsSpec
 import LhasaV.Driver.OpsExtract
 import LhasaV.Driver.OpsList
 import LhasaV.Driver.OpsSpecLh1
+import LhasaV.Driver.OpsSpecLhNew
 /-! `lhv`: one operation per input line, one canonical result line per operation. -/
 namespace LhasaV.Driver
 
-def dispatchers : List (List String → Option String) := [opCrc, opHeader, opDecoder, opReader, opSpec, opExtract, opList, opSpecLh1]
+def dispatchers : List (List String → Option String) := [opCrc, opHeader, opDecoder, opReader, opSpec, opExtract, opList, opSpecLh1, opSpecLhNew]
 
 def runLine (line : String) : String :=
   let toks := (line.trimAscii.toString.splitOn " ").filter (· ≠ "")
